@@ -177,9 +177,11 @@ var gens = map[string]*gen{
 		seps:     ".",
 	},
 	"cidrv4": {
-		fixed:    []string{"0.0.0.0/0", "255.255.255.255/32", "192.168.1.0/24", "10.0.0.0/8", "1.2.3.4/9", "1.2.3.4/10", "1.2.3.4/29", "1.2.3.4/30", "1.2.3.4/31", "1.2.3.4/19", "1.2.3.4/20"},
-		near:     []string{"", "1.2.3.4", "1.2.3.4/", "1.2.3.4/33", "1.2.3.4/032", "1.2.3.4/00", "1.2.3.4/40", "1.2.3.4/99", "1.2.3.4/100", "1.2.3.4/128", "256.2.3.4/8", "01.2.3.4/8", "1.2.3/8", "::ffff:1.2.3.4/120", "::ffff:1.2.3.4/96", "0:0:0:0:0:ffff:102:304/120", "::ffff:102:304/128", "::1.2.3.4/120", "1.2.3.4/8/8", "1.2.3.4/-1", "1.2.3.4/+8", "1.2.3.4%eth0/8", "2001:db8::/32"},
-		random:   func(r *hx.Rng) string { return randIPv4(r) + "/" + fmt.Sprint(hx.Pick(r, []int{0, 1, 8, 9, 10, 16, 24, 29, 30, 31, 32, r.Intn(33)})) },
+		fixed: []string{"0.0.0.0/0", "255.255.255.255/32", "192.168.1.0/24", "10.0.0.0/8", "1.2.3.4/9", "1.2.3.4/10", "1.2.3.4/29", "1.2.3.4/30", "1.2.3.4/31", "1.2.3.4/19", "1.2.3.4/20"},
+		near:  []string{"", "1.2.3.4", "1.2.3.4/", "1.2.3.4/33", "1.2.3.4/032", "1.2.3.4/00", "1.2.3.4/40", "1.2.3.4/99", "1.2.3.4/100", "1.2.3.4/128", "256.2.3.4/8", "01.2.3.4/8", "1.2.3/8", "::ffff:1.2.3.4/120", "::ffff:1.2.3.4/96", "0:0:0:0:0:ffff:102:304/120", "::ffff:102:304/128", "::1.2.3.4/120", "1.2.3.4/8/8", "1.2.3.4/-1", "1.2.3.4/+8", "1.2.3.4%eth0/8", "2001:db8::/32"},
+		random: func(r *hx.Rng) string {
+			return randIPv4(r) + "/" + fmt.Sprint(hx.Pick(r, []int{0, 1, 8, 9, 10, 16, 24, 29, 30, 31, 32, r.Intn(33)}))
+		},
 		alphabet: "0123456789./",
 		seps:     "./",
 	},
@@ -230,9 +232,11 @@ var gens = map[string]*gen{
 		seps:     "-",
 	},
 	"e164": {
-		fixed:    []string{"+14155552671", "+1234567", "+123456789012345", "+9999999", "+10000000", "+442071838750"},
-		near:     []string{"", "+", "+123456", "+1234567890123456", "+0123456789", "14155552671", "++14155552671", "+1 415 555 2671", "+1-415-555-2671", "+1415555267a", "+１４１５５５５２６７１", "0014155552671", "+12345678 "},
-		random:   func(r *hx.Rng) string { return "+" + randHexStr(r, 1, "123456789") + randHexStr(r, hx.Pick(r, []int{6, 7, 10, 13, 14, 6 + r.Intn(9)}), "0123456789") },
+		fixed: []string{"+14155552671", "+1234567", "+123456789012345", "+9999999", "+10000000", "+442071838750"},
+		near:  []string{"", "+", "+123456", "+1234567890123456", "+0123456789", "14155552671", "++14155552671", "+1 415 555 2671", "+1-415-555-2671", "+1415555267a", "+１４１５５５５２６７１", "0014155552671", "+12345678 "},
+		random: func(r *hx.Rng) string {
+			return "+" + randHexStr(r, 1, "123456789") + randHexStr(r, hx.Pick(r, []int{6, 7, 10, 13, 14, 6 + r.Intn(9)}), "0123456789")
+		},
 		alphabet: "0123456789+",
 		seps:     "+",
 	},
@@ -243,6 +247,21 @@ var gens = map[string]*gen{
 		random:   randDate,
 		alphabet: "0123456789-",
 		seps:     "-",
+	},
+	"isotime": {
+		fixed: []string{"15:30", "15:30:00", "00:00", "23:59:59", "15:30:00.5", "15:30:00.123456789", "09:09:09", "20:00:00.0", "19:59"},
+		near:  []string{"", "15", "15:3", "15:30:", "15:30:0", "15:30:00.", "15:30:00,5", "15:30.5", "24:00", "23:60", "23:59:60", "1:30", "015:30", "15:30:00Z", "15:30:00+08:00", "T15:30:00", "15:30:00 ", "15-30-00", "15:30:00.5.5", "15:30:00,", "１５:30"},
+		random: func(r *hx.Rng) string {
+			t := randTime(r)
+			i := strings.IndexAny(t, "Z+-")
+			t = t[:i]
+			if r.Chance(30) {
+				return t[:5]
+			}
+			return t
+		},
+		alphabet: "0123456789:.,",
+		seps:     ":.",
 	},
 	"isodatetime": {
 		fixed: []string{"2024-12-06T15:30:00Z", "2024-02-29T00:00:00Z", "2000-02-29T23:59:59Z", "2024-12-06T15:30:00.5Z", "2024-12-06T15:30:00.123456789Z", "2024-12-06T15:30:00+08:00", "2024-12-06T15:30:00-00:00",
@@ -266,8 +285,10 @@ var gens = map[string]*gen{
 	},
 	"cidrv6": {
 		fixed: []string{"::/0", "2001:db8::/32", "::1/128", "fe80::/10", "2001:db8::8a2e:370:7334/64", "1:2:3:4:5:6:7:8/127", "::ffff:1.2.3.4/120", "::/9", "::/10", "::/99", "::/100", "::/119", "::/120", "::/128", "1::/19"},
-		near: []string{"", "::", "::/", "::/129", "::/130", "::/200", "::/0128", "::/00", "::/01", "1.2.3.4/24", "::/-1", "::/+1", "2001:db8::/32/1", "fe80::1%eth0/64", "1:2:3:4:5:6:7/64", "g::/8", "::ffff:1.2.3.4/24", "::1.2.3.4/100", "1:2:3:4:5:6:1.2.3.4/64"},
-		random:   func(r *hx.Rng) string { return randIPv6(r) + "/" + fmt.Sprint(hx.Pick(r, []int{0, 1, 9, 10, 64, 99, 100, 119, 120, 127, 128, r.Intn(129)})) },
+		near:  []string{"", "::", "::/", "::/129", "::/130", "::/200", "::/0128", "::/00", "::/01", "1.2.3.4/24", "::/-1", "::/+1", "2001:db8::/32/1", "fe80::1%eth0/64", "1:2:3:4:5:6:7/64", "g::/8", "::ffff:1.2.3.4/24", "::1.2.3.4/100", "1:2:3:4:5:6:1.2.3.4/64"},
+		random: func(r *hx.Rng) string {
+			return randIPv6(r) + "/" + fmt.Sprint(hx.Pick(r, []int{0, 1, 9, 10, 64, 99, 100, 119, 120, 127, 128, r.Intn(129)}))
+		},
 		alphabet: "0123456789abcdefABCDEF:./%",
 		seps:     ":./",
 	},
